@@ -2,7 +2,7 @@
    (Order-independence of the rendered result and "each effect once" are additionally checked on the
    implementation by re-rendering with permuted control attributes and by call counters.) *)
 From Coq Require Import Sorting.Sorted.
-From Tpl Require Import Html.Exec Proofs.ExecSpec Proofs.SortProps Proofs.FragmentProps Proofs.FactsAgree Proofs.OrderIrrelevant.
+From Tpl Require Import Html.Exec Proofs.ExecSpec Proofs.SortProps Proofs.FragmentProps Proofs.FactsAgree Proofs.OrderIrrelevant Proofs.Compose.
 Open Scope N_scope.
 
 (* Tag.SortedAttr is a permutation, sorted by the documented key, and STABLE: attributes with the same
@@ -47,7 +47,34 @@ Theorem execute_order_irrelevant : forall is_space to_lower is_letter is_udigit 
   execute is_space to_lower is_letter is_udigit methods call_fn mgr fuel tp data t st =
   execute is_space to_lower is_letter is_udigit methods call_fn mgr fuel tp' data t st.
 Proof. exact OrderIrrelevant.execute_order_irrelevant. Qed.
+
+(* "their effects combine in the documented order ... and each effect is applied exactly once per rendered instance":
+   ONE element carrying with + if + range + text and any number of dynamic and plain attributes, written in ANY order
+   ([composed]: the directive attributes are a permutation of w, c, r, x and the dynamic ones), rendered by the real
+   renderer with any fuel >= 3, in any sibling context, scope, table, writer: the result IS [spec_once] - a plain
+   function that evaluates the with-binding once in the outer scope, then the condition once in the extended scope,
+   then (only if it is "true") the range object once, then per item, in the item's scope, the dynamic attributes once
+   each and then the text once, joining the instances by the blank separator; every failure point returns that
+   failure with the log as it is there. (Compose.v; experiments with recording functions: ComposeExp.v.) *)
+Theorem each_effect_once : forall is_space to_lower is_letter is_udigit methods call_fn mgr ctx n tok w c r x av das,
+  composed to_lower mgr n tok w c r x av das ->
+  forall fuel sc top t st, (3 <= fuel)%nat ->
+  exec_node is_space to_lower is_letter is_udigit methods call_fn mgr fuel 0 ctx n sc top t st =
+  spec_once is_space is_letter is_udigit methods call_fn mgr ctx n tok w c x av sc top t st.
+Proof. exact Compose.compose_exec_node_fuel. Qed.
+(* the same with exactly one dynamic attribute and no plain ones, where the specification calls the evaluator literally
+   once per point: <name ta="escape(a_k)">escape(t_k)</name> per item *)
+Theorem each_effect_once_one_title : forall is_space to_lower is_letter is_udigit methods call_fn mgr ctx n tok w c r x av a ta,
+  composed to_lower mgr n tok w c r x av [a] ->
+  a_name a = m_attr_prefix mgr ++ ta ->
+  (forall b, In b (t_attrs tok) -> prefixb (m_attr_prefix mgr) (a_name b) = true) ->
+  forall f sc top t st,
+  exec_node is_space to_lower is_letter is_udigit methods call_fn mgr (S (S (S f))) 0 ctx n sc top t st =
+  spec_one is_space is_letter is_udigit methods call_fn mgr ctx n tok w c x av a ta sc top t st.
+Proof. exact Compose.compose_one_title. Qed.
 Print Assumptions sorted_perm.
+Print Assumptions each_effect_once.
+Print Assumptions each_effect_once_one_title.
 Print Assumptions sorted_order_irrelevant.
 Print Assumptions render_order_irrelevant.
 Print Assumptions execute_order_irrelevant.
